@@ -74,6 +74,10 @@ fn check(ctx: &mut Ctx, index: u64, label: &str, lists: &[Vec<u32>], expect_rang
         }
     }
     ctx.count("interleaving_switches", switches);
+    // the storm written out for the evidence file: the first serials each thread was handed, and how interleaved the run was
+    ctx.sample(json!({"storm": label, "threads": lists.len(), "serials_observed": total, "counter_start": expect_range.map(|r| r.0),
+        "lowest": all.first(), "highest": all.last(), "interleaving_switches": switches,
+        "first_serials_per_thread": lists.iter().take(4).map(|l| l.iter().take(6).cloned().collect::<Vec<u32>>()).collect::<Vec<_>>()}));
     ctx.distinct(fnv(label) ^ switches.wrapping_mul(0x9E3779B97F4A7C15) ^ total as u64);
     if let Some((start, n)) = expect_range {
         // the multiset must be exactly the contiguous range from `start`, skipping zero
